@@ -1,5 +1,6 @@
 import NimaVerif.Lemmas.Trivia
 import NimaVerif.Lemmas.FragNFParse
+import NimaVerif.Lemmas.FragFixed
 /-!
 # C06 — rebuilt text is a fixed point (trivia algebra)
 
@@ -246,6 +247,42 @@ theorem frag_second_pass_tokens (f2 : File) (hwf : f2.wf = true) :
   have h1 := (srcRebuildP_lex s2 hok).1
   show toksL (lexOf s2.rebuildP) = toksL f2.items.lex
   rw [h1, ← toksL_proj_false, hl, toksL_proj_false, items_toks_lexM]
+
+/-- FIXED POINT FOR COMMENT-FREE FILES. For every well-formed file of the fragment without comments
+    (nested sets / `rec` sets / lists / bindings / leaves with arbitrary whitespace, any depth), the
+    text the round trip writes is the flattening of the well-formed comment-free tree `File.norm f`
+    — the round trip IS that tree normaliser (`file_rt`: one line break per item of a container
+    that spans lines, blank lines kept as one, two-space indentation, values on their own line
+    keep the indentation read from their gap, one-line containers joined by single spaces) — and
+    the round trip of that tree writes the same text again (`File.norm` is idempotent). `File.norm f`
+    is the tree tree-sitter returns for the output: compared with the real tree, node by node, on
+    every comment-free sample of every run (`fragment_correspondence`), which is the parser-contract
+    step. With comments the statement is false (`cex_comment_around_semicolon`) and its proof for
+    line-level comments is open. -/
+theorem frag_fixed_point_comment_free (f : File) (hwf : f.wf = true) (_hws : f.noLeadingWs = true)
+    (hcf : f.cf = true) :
+    f.norm.wf = true ∧ f.norm.noLeadingWs = true ∧ f.norm.cf = true ∧
+    f.roundtrip = .ok f.norm.flatten ∧ f.norm.roundtrip = .ok f.norm.flatten := by
+  have h := file_fixed_point f hwf hcf
+  exact ⟨h.1, h.2.2.1, h.2.1, h.2.2.2.1, h.2.2.2.2⟩
+
+/-- the normaliser is a projection -/
+theorem frag_norm_idempotent (f : File) (hwf : f.wf = true) (hcf : f.cf = true) : f.norm.norm = f.norm :=
+  file_norm_idem f hwf hcf
+
+/-- `rec⏎ {⏎⏎⏎⇥a  =⏎⏎      [ 1⏎⏎[⏎⏎  ]⇥] ; b={c= x;};⏎⏎⏎}⏎⏎⏎` -/
+def wsSample : File :=
+  { items := .elem [] (.set true "\n ".toList
+      (.bind "\n\n\n\t".toList "a".toList [] "  ".toList [] "\n\n      ".toList
+          (.list (.elem " ".toList (.leaf .int "1".toList) (.elem "\n\n".toList (.list .nil "\n\n  ".toList) .nil)) "\t".toList) [] " ".toList
+        (.bind " ".toList "b".toList [] [] [] [] (.set false [] (.bind [] "c".toList [] [] [] " ".toList (.leaf .ident "x".toList) [] [] .nil) [])
+          [] [] .nil)) "\n\n\n".toList) .nil,
+    endGap := "\n\n\n".toList }
+
+example : wsSample.wf = true ∧ wsSample.cf = true ∧ wsSample.noLeadingWs = true := by decide
+example : wsSample.norm.flatten =
+    "rec {\n\n  a =\n\n      [\n        1\n\n        [\n\n        ]\n      ];\n  b = { c = x; };\n\n}\n\n".toList := by
+  decide
 
 /-- fixed points of the model (line-level comments, canonical layout): decidable per file -/
 def isFixedPoint (f : File) : Bool := decide (f.roundtrip = .ok f.flatten)
